@@ -42,6 +42,23 @@ func checkC14() int {
 		o := gen.Opt{MaxSplit: 4, Pol: 2, Alias: 35, ExplicitSelf: 15, ExplicitProv: 20, Exec: 10, Print: 14, TopMax: 3, Fuel: 3, MultiProv: 35, Drop: 15, Split: 28, Mixed: i%4 == 0, MainMode: []vast.Mode{vast.Rep, vast.Mul, vast.Rep, vast.Lin}[i%4]}
 		return &o
 	})
+	// programs made large in one respect (many parameters next to functions whose names extend
+	// one another, long names, padding): their variants rename the functions
+	{
+		ir := rand.New(rand.NewSource(subSeed(c.Seed, 1415)))
+		n := len(cases)
+		for i := 0; i < n; i += 8 {
+			q, kind := mut.Inflate(cases[i].P, ir, []string{"many-params", "", "many-params", "long-names"}[(i/8)%4])
+			if typing.Check(q).Kind != typing.Accept {
+				continue
+			}
+			m := sem.New(q)
+			if !m.Lazy(4000000) {
+				continue
+			}
+			cases = append(cases, &progCase{ID: cases[i].ID + "-" + kind, P: q, Text: q.Text(), Contr: cases[i].Contr, LazyMS: sem.MS(m.Prints), LazySteps: m.Steps, Source: "G1-inflated", Feat: q.Feat})
+		}
+	}
 	// wide programs: parallel compositions of 12 programs (30..60 top-level processes); their
 	// variants permute the declarations, so which processes are declared last changes
 	cases = append(cases, wideCases(c, c.pick(10, 80), 12, 35, nil)...)
